@@ -82,13 +82,15 @@ def run_case(case, ctx):
     exc, c2, text = "", None, None
     try:
         if case["file"]:
-            path = os.path.join(ctx.scratch, "rt_%d_%d.v" % (os.getpid(), ctx.hashseed))
+            odd = case.get("noname") and not case["behavioral"]
+            path = os.path.join(ctx.scratch, "rt_%d_%d.%s" % (os.getpid(), ctx.hashseed, "bench" if odd else "v"))
             cg.to_file(c, path, behavioral=case["behavioral"])
             with open(path) as fh:
                 text = fh.read()
             if case.get("noname"):
                 # the file is not called like the module: the module (and the circuit) keeps its own name
-                c2 = cg.from_file(path, blackboxes=bbs)
+                # (sometimes from a file whose suffix says bench: the explicit fmt "overrides the extension")
+                c2 = cg.from_file(path, fmt="verilog", name=c.name, blackboxes=bbs) if odd else cg.from_file(path, blackboxes=bbs)
             else:
                 c2 = cg.from_file(path, name=c.name, blackboxes=bbs)
             os.remove(path)
